@@ -7,7 +7,7 @@ from vlib.runner import KH, run_kani_group, run_mir_obligations
 
 LEVEL = "other"
 EXPLANATION = ("Kani/CBMC bounded verdicts over the real TokenBucket (stubbed monotonic clock) + MIR path "
-               "obligations over RateLimiter::check_limit decided by z3; see obligation_results for bounds.")
+               "obligations over RateLimiter::check_limit and over the server's wiring of enforce_rate_limit (every data RPC, every streamed item) decided by z3; see obligation_results for bounds.")
 TRUSTED_BASE = ["rustc MIR construction", "Kani 0.68 MIR->goto translation", "CBMC 6.11 float/bit-vector semantics + CaDiCaL",
                 "stub: std::time::Instant::now -> harness-controlled monotonic clock"]
 NOT_COVERED = ["concurrent callers (mutex-protected; sequential semantics assumed)", "admin/observability RPCs (Health, Metrics, FlushHotTier, CreateSnapshot, GetConfig) are not rate limited by design and are outside O19.4", "a direct k-call window harness (3 calls, concrete capacity 1) did not finish in 20 min of CaDiCaL and was removed; the window bound follows from the inductive step O19.1a+O19.1b by the potential-function argument in the harness comment (paper step)",
